@@ -61,6 +61,7 @@ type c07 struct {
 	part    replica.Partition
 	cancel  context.CancelFunc
 	armed   bool
+	garbage map[int64]bool // log sequences of undecodable entries
 	crashFS float64
 	crashY  float64
 }
@@ -79,6 +80,8 @@ func genC07(rng *rand.Rand, tier string) *core.Plan {
 	n := 5 + rng.Intn(12)
 	for i := 0; i < n; i++ {
 		switch r := rng.Intn(100); {
+		case r < 4:
+			p.Ops = append(p.Ops, core.Op{K: "garbage"}) // a log entry that cannot be decoded (skipped by the replicator)
 		case r < 40:
 			p.Ops = append(p.Ops, core.Op{K: "append", A: int64(1 + rng.Intn(3)), B: int64(1 + rng.Intn(3))}) // A messages of B rows
 		case r < 60:
@@ -173,6 +176,10 @@ func (h *c07) start(first bool) bool {
 		// sequence stored with the flushed data
 		rep := replica.VerifReplicators(p)[int(c07Leader)]
 		persisted := h.persisted()
+		// an undecodable entry right behind the stored sequence has nothing to store: skipping it may acknowledge it
+		for h.garbage[persisted+1] {
+			persisted++
+		}
 		if rep != nil && rep.AckIndex() > persisted {
 			c.Violate("C07/ack-ahead-of-stored-sequence", "after recovery the log is acknowledged up to %d, the sequence stored with the flushed data is %d", rep.AckIndex(), persisted)
 			return false
@@ -220,6 +227,9 @@ func (h *c07) catchUp() bool {
 	log := replica.VerifPartitionLog(h.part)
 	for i := 0; i < 3000 && !h.dead; i++ {
 		appended := log.Queue().AppendedSeq()
+		for h.garbage[appended] {
+			appended-- // skipped entries are never applied
+		}
 		rep := replica.VerifReplicators(h.part)[int(c07Leader)]
 		if appended < 0 || (rep != nil && rep.Pending() == 0 && h.applied() >= appended) {
 			return true
@@ -325,7 +335,7 @@ func (h *c07) crashNow(what string) {
 
 func runC07(c *core.RunCtx) {
 	sim := c.Sim
-	h := &c07{c: c, sim: sim, db: "w" + NewTag(), nser: c.Plan.C("nseries", 3),
+	h := &c07{c: c, sim: sim, db: "w" + NewTag(), nser: c.Plan.C("nseries", 3), garbage: map[int64]bool{},
 		crashFS: float64(c.Plan.C("crash_fs_pm", 0)) / 1000, crashY: float64(c.Plan.C("crash_y_pm10", 0)) / 10000}
 	pre := func(op, path string) {
 		if !h.armed || h.dead || sim.CurInc() != h.inc {
@@ -402,6 +412,16 @@ func runC07(c *core.RunCtx) {
 						}
 						m.acked = true
 					}
+				case "garbage":
+					// bytes that are no snappy block: the local replicator cannot decode the entry and skips it
+					// (the process does not die inside this append, so the entry's sequence is known)
+					h.armed = false
+					sim.Fault("undecodable-log-entry")
+					if err := h.part.WriteLog([]byte{0xff, 0xff, 0xff, 0xff, 0xff, 0xff, 0xff, 0xff, 0xff, 0xff, 0xff, 0x01}); err != nil {
+						c.Anomaly("WriteLog: %v", err)
+						return
+					}
+					h.garbage[replica.VerifPartitionLog(h.part).Queue().AppendedSeq()] = true
 				case "flush":
 					if db, ok := h.node.Engine.GetDatabase(h.db); ok {
 						sim.Fault("flush-request")
